@@ -263,6 +263,13 @@ func (dlv *Delivery) Normalize(normalizers tax.Normalizers) {
 	}
 	dlv.Series = cbc.NormalizeCode(dlv.Series)
 	dlv.Code = cbc.NormalizeCode(dlv.Code)
+	dlv.ExchangeRates = dropNilRows(dlv.ExchangeRates)
+	dlv.Preceding = dropNilRows(dlv.Preceding)
+	dlv.Lines = dropNilRows(dlv.Lines)
+	dlv.Discounts = dropNilRows(dlv.Discounts)
+	dlv.Charges = dropNilRows(dlv.Charges)
+	dlv.Notes = dropNilRows(dlv.Notes)
+	dlv.Complements = dropNilRows(dlv.Complements)
 
 	normalizers.Each(dlv)
 
